@@ -163,6 +163,7 @@ def catalogue():
                typing.Final[int], typing.Final[typing.List[int]], typing.ClassVar[int], typing.ClassVar[typing.Dict[str, int]], typing.Any, T, TB,
                typing.Callable, cabc.Callable, typing.Callable[[int], str], typing.Callable[..., typing.Any], None, Ellipsis, inspect.Parameter.empty,
                typing.ForwardRef("int"), typing.Generic, typing.Protocol,
+               typing.TypeVar("T_co", covariant=True), typing.TypeVar("T_contra", contravariant=True), typing.ParamSpec("P"), len, catalogue,
                TN, TNN, TA, TCN, typing.ClassVar[TN], typing.Final[TA], typing.List[TN], dict[str, TA],
                # order-permuted twins of the unions / literals above (equal and hash-equal to them, different get_args order)
                typing.Union[str, int], str | int, typing.Union[None, int], None | int, typing.Union[str, None, int], typing.Literal[3, 2, 1],
@@ -420,8 +421,15 @@ def o_supertype(x):
     return x
 
 
+def _named_by_runtime(x):
+    # objects whose runtime name is their __name__: type-variables, ParamSpecs, NewTypes, plain functions
+    return isinstance(x, (typing.TypeVar, typing.ParamSpec, types.FunctionType, types.BuiltinFunctionType)) or hasattr(x, "__supertype__")
+
+
 def o_name(x):
     if is_cls(x) and x.__module__ != "typing":
+        return x.__name__
+    if _named_by_runtime(x):
         return x.__name__
     n = getattr(x, "_name", None)
     if typing.get_origin(x) in (typing.Union, types.UnionType):
@@ -436,6 +444,8 @@ def o_name(x):
 def o_qualname(x):
     if is_cls(x) and x.__module__ != "typing":
         return x.__qualname__.replace("<locals>.", "")
+    if _named_by_runtime(x):
+        return (getattr(x, "__qualname__", None) or x.__name__).replace("<locals>.", "")
     return NotImplemented
 
 
